@@ -339,9 +339,35 @@ class UF:
         if k not in s.uf:
             s.uf[k] = z3.Function(name, *([BV64] * n + [ret]))
         return s.uf[k]
+    SIGN = 1 << 63
+    def _split(s, t):
+        """(negated?, core) where t == core ^ SIGN syntactically"""
+        if isinstance(t, float):
+            import math
+            return (math.copysign(1.0, t) < 0, abs(t)) if t == t else (False, t)
+        if z3.is_app(t) and t.decl().kind() == z3.Z3_OP_BXOR and t.num_args() == 2:
+            a0, a1 = t.arg(0), t.arg(1)
+            if z3.is_bv_value(a0) and a0.as_long() == s.SIGN: return True, a1
+            if z3.is_bv_value(a1) and a1.as_long() == s.SIGN: return True, a0
+        return False, t
+    def _neg(s, t):
+        if isinstance(t, float): return -t
+        sg, core = s._split(t)
+        return core if sg else t ^ z3.BitVecVal(s.SIGN, 64)
     def _bin(s, name, cf, a, b):
         if isinstance(a, float) and isinstance(b, float): return cf(a, b)
         s.ops_built += 1
+        if s.sign_normalise and name in ('fmul', 'fdiv'):
+            # IEEE-754: mul/div are odd in each argument (the sign of the result is the xor of the signs; magnitudes
+            # round identically).  Each rewrite is discharged as a Float64 lemma by the harness that enables this.
+            sa, ca = s._split(a); sb, cb = s._split(b)
+            if name == 'fmul':
+                x, y = s.z(ca), s.z(cb)
+                if x.get_id() > y.get_id(): x, y = y, x          # commutativity (exact in IEEE)
+                r = s.fn(name, 2)(x, y)
+            else:
+                r = s.fn(name, 2)(s.z(ca), s.z(cb))
+            return s._neg(r) if sa != sb else r
         return s.fn(name, 2)(s.z(a), s.z(b))
     def fadd(s, a, b): return s._bin('fadd', lambda x, y: x + y, a, b)
     def fsub(s, a, b): return s._bin('fsub', lambda x, y: x - y, a, b)
@@ -350,7 +376,7 @@ class UF:
     def fneg(s, a):
         if isinstance(a, float): return -a
         # sign bit flip is exact in IEEE: interpret it
-        return a ^ z3.BitVecVal(1 << 63, 64)
+        return s._neg(a)
     def isnan_bv(s, a):
         a = s.z(a)
         if s.nan_ok is not None and not (z3.is_bv_value(a) or a.get_id() in s.nan_ok):
@@ -373,11 +399,17 @@ class UF:
         return s.fn('fcmp_' + pred, 2, z3.BoolSort())(s.z(a), s.z(b))
     def sitofp(s, v, bits, signed=True):
         if isinstance(v, int): return Conc().sitofp(v, bits, signed)
+        if s.sign_normalise and z3.is_bv(v): v = z3.simplify(v)       # canonical integer term (x + k - k -> x)
         if z3.is_bool(v): v = z3.If(v, z3.BitVecVal(1, 64), z3.BitVecVal(0, 64))
         elif v.size() < 64: v = z3.SignExt(64 - v.size(), v) if signed else z3.ZeroExt(64 - v.size(), v)
         return s.fn('sitofp' if signed else 'uitofp', 1)(v)
     def fptosi(s, v, bits, signed=True):
         if isinstance(v, float): return Conc().fptosi(v, bits, signed)
+        if s.sign_normalise and signed:
+            sg, core = s._split(v)
+            r = s.fn('fptosi', 1)(s.z(core))
+            if sg: r = -r                      # truncation toward zero is odd (in range; assumption stated by the harness)
+            return r if bits == 64 else z3.Extract(bits - 1, 0, r)
         r = s.fn('fptosi' if signed else 'fptoui', 1)(v)
         return r if bits == 64 else z3.Extract(bits - 1, 0, r)
     def to_bits(s, v):
